@@ -339,7 +339,13 @@ func runH2(k *kernel.K, focus string) {
 			}
 			if windows && w.Chance(1, 8) {
 				id := http2.SettingInitialWindowSize
-				out = append(out, &H2Op{Kind: "settings", Settings: []http2.Setting{{ID: id, Val: winVals[w.Draw(len(winVals))]}}})
+				op := &H2Op{Kind: "settings", Settings: []http2.Setting{{ID: id, Val: winVals[w.Draw(len(winVals))]}}}
+				if w.Chance(1, 3) {
+					// the same identifier twice in one frame: only the last value is ever in force
+					op.Settings = append([]http2.Setting{{ID: id, Val: op.Settings[0].Val + uint32([]int{1, 5000, 70000}[w.Draw(3)])}}, op.Settings...)
+					k.Probe("settings_frame_repeats_identifier")
+				}
+				out = append(out, op)
 			}
 			if w.Chance(1, 25) {
 				out = append(out, &H2Op{Kind: "settings", Settings: []http2.Setting{{ID: http2.SettingMaxFrameSize, Val: []uint32{16384, 30000}[w.Draw(2)]}}})
